@@ -290,7 +290,7 @@ def _bi_int(E, args, kwargs, st, node):
             return [(st, to_int_term(x))]
         if z3.is_real(x):
             return [(st, z3.If(x >= 0, z3.ToInt(x), -z3.ToInt(-x)))]
-    raise EngineError("int() of %r" % (x,))
+    raise EngineError("int() of %s" % type(x).__name__)
 
 
 def _bi_float(E, args, kwargs, st, node):
@@ -367,6 +367,9 @@ def _bi_enumerate(E, args, kwargs, st, node):
     items = E.static_items(args[0])
     start = args[1] if len(args) > 1 else kwargs.get("start", 0)
     if items is None:
+        if isinstance(args[0], SeqV):
+            from .values import EnumV
+            return [(st, EnumV(args[0], start))]
         raise EngineError("enumerate over a sequence of symbolic length")
     return [(st, ListV([(start + i, x) for i, x in enumerate(items)]))]
 
@@ -495,7 +498,7 @@ def _bi_bytes(E, args, kwargs, st, node):
         return [(st, seqs.to_seq(v, TInt(0, 255), "bytes"))]
     if is_scalar(v):
         return [(st, SeqV(ite(truth(Arith(lambda *a: None).compare('>', v, 0)), v, 0), TInt(0, 255), [z3.K(z3.IntSort(), z3.IntVal(0))], "bytes"))]
-    raise EngineError("bytes() of %r" % (v,))
+    raise EngineError("bytes() of %s" % type(v).__name__)
 
 
 def _bi_set(E, args, kwargs, st, node):
@@ -518,7 +521,7 @@ def _bi_dict(E, args, kwargs, st, node):
     items = E.static_items(args[0])
     if items is not None:
         return [(st, ConstDict([tuple(E.static_items(x)) for x in items] + list(kwargs.items())))]
-    raise EngineError("dict() of %r" % (args[0],))
+    raise EngineError("dict() of %s" % type(args[0]).__name__)
 
 
 def _bi_str(E, args, kwargs, st, node):
@@ -567,7 +570,7 @@ def _bi_next(E, args, kwargs, st, node):
                     v, f = seqs.seq_get(args[0], 0)
                     out.append((s.assume(*f), v))
             return out
-        raise EngineError("next() of %r" % (args[0],))
+        raise EngineError("next() of %s" % type(args[0]).__name__)
     if not items:
         if len(args) > 1:
             return [(st, args[1])]
@@ -647,8 +650,11 @@ def call_method(E, recv, name, args, kwargs, st, node):
             return [(st, recv)]
         if name == "update":
             other = args[0] if args else ConstDict(list(kwargs.items()))
+            if isinstance(other, MapV):
+                base = const_to_map(recv, other)
+                return [(write_recv(E, node, map_update(base, other), st), NONE)]
             if not isinstance(other, ConstDict):
-                raise EngineError("dict.update with %r" % (other,))
+                raise EngineError("dict.update with %s" % type(other).__name__)
             new = recv
             for k, v in other.entries:
                 new = E.store(st, node, new, k, v)
@@ -699,6 +705,17 @@ def call_method(E, recv, name, args, kwargs, st, node):
             return [(write_recv(E, node, seqs.seq_concat(recv, args[0]), st), NONE)]
         if name == "copy":
             return [(st, recv)]
+        if name == "pop" and not args:
+            ar = Arith(lambda *a: None)
+            out = []
+            for s_, _ in E.partial(st, node, 'IndexError', ar.compare('>', recv.length, 0), None):
+                if isinstance(_, Raised):
+                    out.append((s_, _))
+                    continue
+                last, facts = seqs.seq_get(recv, ar.binop('-', recv.length, 1))
+                new = SeqV(ar.binop('-', recv.length, 1), recv.elem, recv.arrs, recv.kind, recv.base)
+                out.append((write_recv(E, node, new, s_.assume(*facts)), last))
+            return out
         raise EngineError("sequence method %s" % name)
     if isinstance(recv, MapV):
         if name == "get":
@@ -718,6 +735,8 @@ def call_method(E, recv, name, args, kwargs, st, node):
                 return out
         if name == "copy":
             return [(st, recv)]
+        if name == "update" and args and isinstance(args[0], MapV):
+            return [(write_recv(E, node, map_update(recv, args[0]), st), NONE)]
         raise EngineError("dict.%s on a symbolic map" % name)
     if isinstance(recv, LitSet):
         if name == "add":
@@ -756,6 +775,37 @@ def call_method(E, recv, name, args, kwargs, st, node):
         if name == "bit_length":
             raise EngineError("int.bit_length")
     raise EngineError("method %s of %s (line %s)" % (name, type(recv).__name__, getattr(node, "lineno", "?")))
+
+
+def const_to_map(cd, like):
+    """a literal dict as a symbolic map of the same key/value shapes as `like`"""
+    dom = z3.K(key_sort(like.key), z3.BoolVal(False))
+    arrs = list(z3.K(key_sort(like.key), _dl(l)) for l in shape_leaves(like.val))
+    m = MapV(like.key, like.val, dom, arrs)
+    for k, v in cd.entries:
+        kt = key_term(like.key, k)
+        fl = flatten_value(like.val, v)
+        m = MapV(m.key, m.val, z3.Store(m.dom, kt, z3.BoolVal(True)), [z3.Store(a, kt, x) for a, x in zip(m.arrs, fl)])
+    return m
+
+
+def _dl(l):
+    from .values import default_leaf
+    return default_leaf(l)
+
+
+def map_update(a, b):
+    """a.update(b): keys of either; b's values win (fresh arrays with conservative definitions)"""
+    ks = key_sort(a.key)
+    j = z3.Const(fresh_name("k"), ks)
+    dom = z3.Array(fresh_name("upd.dom"), ks, z3.BoolSort())
+    ops.define(dom.decl().name(), z3.ForAll([j], z3.Select(dom, j) == z3.Or(z3.Select(a.dom, j), z3.Select(b.dom, j)), patterns=[z3.Select(dom, j)]))
+    arrs = []
+    for x, y in zip(a.arrs, b.arrs):
+        r = z3.Array(fresh_name("upd.val"), ks, x.sort().range())
+        ops.define(r.decl().name(), z3.ForAll([j], z3.Select(r, j) == z3.If(z3.Select(b.dom, j), z3.Select(y, j), z3.Select(x, j)), patterns=[z3.Select(r, j)]))
+        arrs.append(r)
+    return MapV(a.key, a.val, dom, arrs)
 
 
 def write_recv(E, callnode, newval, st):
